@@ -1,12 +1,1517 @@
-//! Part (c): MonitorUpdatingPersisterAsync (placeholder until the sync part is solid).
+//! Part (c) of DESIGN §C19: `MonitorUpdatingPersisterAsync` behind `ChainMonitor::new_async_beta`.
+//!
+//! The write path of the async persister is only reachable through a `ChainMonitor` built with
+//! `new_async_beta`, so the mirror here is a second, real `ChainMonitor` per mirrored node. It is
+//! registered with the node's monitors after channel setup and from then on receives
+//! * every `ChannelMonitorUpdate` the node's `ChannelManager` produced (bytes from the `Watch` tap),
+//!   through the real `chain::Watch::update_channel`, and
+//! * every block the node was given, through `chain::Confirm`.
+//! Its persister writes to `AsyncKv`: every store operation is *issued* synchronously (that is the
+//! `KVStore` contract) and parked; the scheduler decides when each parked operation takes effect —
+//! in any order across keys, in issue order per key (profile `async`), or in global issue order
+//! (profile `async-fifo`, a store stronger than the contract demands). Spawned futures are parked
+//! in a list and polled by the simulator. A crash drops the `ChainMonitor`, the futures and the
+//! parked operations; the store keeps what has taken effect. After every operation that takes
+//! effect the crash state is recovered with a fresh persister and checked as in part (b);
+//! acknowledgement = `MonitorEvent::Completed` released by the `ChainMonitor` (C09-2 for this
+//! persister: completion only after the write resolved).
 
-use serde_json::Value;
-use simcore::{RunOutcome, Tier};
+use crate::kv::{join, OpKind, SimKv, Snapshot, Val};
+use crate::mirror::{drain_events, read_monitor, MirrorKeys, Mon};
+use bitcoin::Transaction;
+use lightning::chain::chainmonitor::{AsyncPersister, ChainMonitor};
+use lightning::chain::channelmonitor::{ChannelMonitorUpdate, MonitorEvent};
+use lightning::chain::{ChannelMonitorUpdateStatus, Confirm, Watch};
+use lightning::io;
+use lightning::ln::types::ChannelId;
+use lightning::sign::NodeSigner;
+use lightning::util::native_async::FutureSpawner;
+use lightning::util::persist::{
+	KVStore, KVStoreSync, MonitorUpdatingPersisterAsync, CHANNEL_MONITOR_PERSISTENCE_PRIMARY_NAMESPACE,
+	CHANNEL_MONITOR_UPDATE_PERSISTENCE_PRIMARY_NAMESPACE,
+};
+use lightning::util::ser::{Readable, Writeable};
+use lnsim::infra::{SimBroadcaster, SimFee, SimFilter, SimKeys, SimLogger, SimSigner};
+use lnsim::world::{Action as WAction, World};
+use serde::{Deserialize, Serialize};
+use serde_json::{json, Value};
+use simcore::runner::catch;
+use simcore::{fnv, fnv_extend, Rng, RunOutcome, Tier};
+use std::collections::{BTreeMap, BTreeSet};
+use std::future::Future;
+use std::pin::Pin;
+use std::sync::{Arc, Mutex};
+use std::task::{Context, Poll, Waker};
 
-pub fn run(seed: u64, _tier: Tier) -> RunOutcome {
-	RunOutcome::new("async", seed)
+// ---------------------------------------------------------------------------------------------
+// parked store operations
+
+pub struct OpFuture<T>(Arc<Mutex<Option<T>>>);
+
+impl<T> Future for OpFuture<T> {
+	type Output = T;
+	fn poll(self: Pin<&mut Self>, _cx: &mut Context<'_>) -> Poll<T> {
+		match self.0.lock().unwrap().take() {
+			Some(v) => Poll::Ready(v),
+			None => Poll::Pending,
+		}
+	}
 }
 
-pub fn replay(_replay: &Value) -> RunOutcome {
-	RunOutcome::new("async", 0)
+enum Slot {
+	Bytes(Arc<Mutex<Option<Result<Vec<u8>, io::Error>>>>),
+	Unit(Arc<Mutex<Option<Result<(), io::Error>>>>),
+	List(Arc<Mutex<Option<Result<Vec<String>, io::Error>>>>),
+}
+
+pub struct Parked {
+	pub seq: u64,
+	pub kind: OpKind,
+	pub p: String,
+	pub s: String,
+	pub k: String,
+	pub value: Option<Vec<u8>>,
+	/// harness call during which the operation was issued
+	pub call: usize,
+	slot: Slot,
+}
+
+pub struct AsyncKv {
+	pub store: SimKv,
+	pub parked: Mutex<Vec<Parked>>,
+	/// recovery mode: every operation takes effect at once
+	pub immediate: bool,
+	pub seq: Mutex<u64>,
+	pub cur_call: Mutex<usize>,
+	/// applied op index -> harness call that issued it
+	pub op_call: Mutex<BTreeMap<usize, usize>>,
+}
+
+impl AsyncKv {
+	pub fn new(lazy_mode: u8, list_salt: u64) -> AsyncKv {
+		AsyncKv {
+			store: SimKv::new(lazy_mode, list_salt, true),
+			parked: Mutex::new(Vec::new()),
+			immediate: false,
+			seq: Mutex::new(0),
+			cur_call: Mutex::new(0),
+			op_call: Mutex::new(BTreeMap::new()),
+		}
+	}
+	pub fn recovering(state: &BTreeMap<String, (Val, usize)>, list_salt: u64) -> AsyncKv {
+		AsyncKv {
+			store: SimKv::from_state(state, list_salt),
+			parked: Mutex::new(Vec::new()),
+			immediate: true,
+			seq: Mutex::new(0),
+			cur_call: Mutex::new(0),
+			op_call: Mutex::new(BTreeMap::new()),
+		}
+	}
+	fn park(&self, kind: OpKind, p: &str, s: &str, k: &str, value: Option<Vec<u8>>, slot: Slot) {
+		let seq = {
+			let mut q = self.seq.lock().unwrap();
+			*q += 1;
+			*q
+		};
+		let call = *self.cur_call.lock().unwrap();
+		self.parked.lock().unwrap().push(Parked {
+			seq,
+			kind,
+			p: p.into(),
+			s: s.into(),
+			k: k.into(),
+			value,
+			call,
+			slot,
+		});
+	}
+	/// Indices (into `parked`) of the operations that may take effect next.
+	pub fn eligible(&self, global_fifo: bool) -> Vec<usize> {
+		let parked = self.parked.lock().unwrap();
+		let mut out = Vec::new();
+		let mut seen_keys: BTreeSet<String> = BTreeSet::new();
+		let mut seen_mutating = false;
+		for (i, op) in parked.iter().enumerate() {
+			match op.kind {
+				OpKind::Read | OpKind::List => out.push(i),
+				OpKind::Write | OpKind::Remove { .. } => {
+					let jk = join(&op.p, &op.s, &op.k);
+					let first_on_key = seen_keys.insert(jk);
+					if first_on_key && !(global_fifo && seen_mutating) {
+						out.push(i);
+					}
+					seen_mutating = true;
+				},
+			}
+		}
+		out
+	}
+	/// Lets the `idx`-th parked operation take effect. Returns its kind.
+	pub fn resolve(&self, idx: usize) -> Option<OpKind> {
+		let op = {
+			let mut parked = self.parked.lock().unwrap();
+			if idx >= parked.len() {
+				return None;
+			}
+			parked.remove(idx)
+		};
+		self.store.set_call(op.call);
+		let before = self.store.op_count();
+		match (op.kind, op.slot) {
+			(OpKind::Read, Slot::Bytes(s)) => {
+				*s.lock().unwrap() = Some(KVStoreSync::read(&self.store, &op.p, &op.s, &op.k));
+			},
+			(OpKind::Write, Slot::Unit(s)) => {
+				*s.lock().unwrap() =
+					Some(KVStoreSync::write(&self.store, &op.p, &op.s, &op.k, op.value.unwrap_or_default()));
+			},
+			(OpKind::Remove { lazy }, Slot::Unit(s)) => {
+				*s.lock().unwrap() = Some(KVStoreSync::remove(&self.store, &op.p, &op.s, &op.k, lazy));
+			},
+			(OpKind::List, Slot::List(s)) => {
+				*s.lock().unwrap() = Some(KVStoreSync::list(&self.store, &op.p, &op.s));
+			},
+			_ => {},
+		}
+		self.op_call.lock().unwrap().insert(before, op.call);
+		Some(op.kind)
+	}
+}
+
+impl KVStore for AsyncKv {
+	fn read(
+		&self, p: &str, s: &str, k: &str,
+	) -> impl Future<Output = Result<Vec<u8>, io::Error>> + 'static + Send {
+		let slot = Arc::new(Mutex::new(None));
+		if self.immediate {
+			*slot.lock().unwrap() = Some(KVStoreSync::read(&self.store, p, s, k));
+		} else {
+			self.park(OpKind::Read, p, s, k, None, Slot::Bytes(Arc::clone(&slot)));
+		}
+		OpFuture(slot)
+	}
+	fn write(
+		&self, p: &str, s: &str, k: &str, buf: Vec<u8>,
+	) -> impl Future<Output = Result<(), io::Error>> + 'static + Send {
+		let slot = Arc::new(Mutex::new(None));
+		if self.immediate {
+			*slot.lock().unwrap() = Some(KVStoreSync::write(&self.store, p, s, k, buf));
+		} else {
+			self.park(OpKind::Write, p, s, k, Some(buf), Slot::Unit(Arc::clone(&slot)));
+		}
+		OpFuture(slot)
+	}
+	fn remove(
+		&self, p: &str, s: &str, k: &str, lazy: bool,
+	) -> impl Future<Output = Result<(), io::Error>> + 'static + Send {
+		let slot = Arc::new(Mutex::new(None));
+		if self.immediate {
+			*slot.lock().unwrap() = Some(KVStoreSync::remove(&self.store, p, s, k, lazy));
+		} else {
+			self.park(OpKind::Remove { lazy }, p, s, k, None, Slot::Unit(Arc::clone(&slot)));
+		}
+		OpFuture(slot)
+	}
+	fn list(&self, p: &str, s: &str) -> impl Future<Output = Result<Vec<String>, io::Error>> + 'static + Send {
+		let slot = Arc::new(Mutex::new(None));
+		if self.immediate {
+			*slot.lock().unwrap() = Some(KVStoreSync::list(&self.store, p, s));
+		} else {
+			self.park(OpKind::List, p, s, "", None, Slot::List(Arc::clone(&slot)));
+		}
+		OpFuture(slot)
+	}
+}
+
+// ---------------------------------------------------------------------------------------------
+// the spawner: parks futures; the simulator polls them
+
+type Task = Pin<Box<dyn Future<Output = ()> + Send>>;
+
+#[derive(Clone)]
+pub struct ParkSpawner {
+	pub tasks: Arc<Mutex<Vec<Task>>>,
+}
+
+pub struct SpawnHandle<O>(Arc<Mutex<Option<O>>>);
+
+impl<O> Future for SpawnHandle<O> {
+	type Output = Result<O, ()>;
+	fn poll(self: Pin<&mut Self>, _cx: &mut Context<'_>) -> Poll<Result<O, ()>> {
+		match self.0.lock().unwrap().take() {
+			Some(v) => Poll::Ready(Ok(v)),
+			None => Poll::Pending,
+		}
+	}
+}
+
+impl FutureSpawner for ParkSpawner {
+	type E = ();
+	type SpawnedFutureResult<O> = SpawnHandle<O>;
+	fn spawn<O: Send + 'static, T: Future<Output = O> + Send + 'static>(&self, future: T) -> SpawnHandle<O> {
+		let slot = Arc::new(Mutex::new(None));
+		let s2 = Arc::clone(&slot);
+		self.tasks.lock().unwrap().push(Box::pin(async move {
+			let o = future.await;
+			*s2.lock().unwrap() = Some(o);
+		}));
+		SpawnHandle(slot)
+	}
+}
+
+impl ParkSpawner {
+	pub fn new() -> Self {
+		ParkSpawner { tasks: Arc::new(Mutex::new(Vec::new())) }
+	}
+	/// Polls every parked future once; returns how many finished.
+	pub fn poll_all(&self) -> usize {
+		let mut tasks: Vec<Task> = std::mem::take(&mut *self.tasks.lock().unwrap());
+		let mut cx = Context::from_waker(Waker::noop());
+		let mut done = 0;
+		let mut keep: Vec<Task> = Vec::new();
+		for mut t in tasks.drain(..) {
+			match t.as_mut().poll(&mut cx) {
+				Poll::Ready(()) => done += 1,
+				Poll::Pending => keep.push(t),
+			}
+		}
+		let mut g = self.tasks.lock().unwrap();
+		// futures spawned while polling come after the older ones
+		let newer: Vec<Task> = std::mem::take(&mut *g);
+		*g = keep;
+		g.extend(newer);
+		done
+	}
+	pub fn len(&self) -> usize {
+		self.tasks.lock().unwrap().len()
+	}
+}
+
+fn block_on_ready<F: Future>(f: F) -> Option<F::Output> {
+	let mut cx = Context::from_waker(Waker::noop());
+	let mut f = std::pin::pin!(f);
+	match f.as_mut().poll(&mut cx) {
+		Poll::Ready(v) => Some(v),
+		Poll::Pending => None,
+	}
+}
+
+// ---------------------------------------------------------------------------------------------
+
+type APersister = MonitorUpdatingPersisterAsync<
+	Arc<AsyncKv>,
+	ParkSpawner,
+	Arc<SimLogger>,
+	Arc<MirrorKeys>,
+	Arc<MirrorKeys>,
+	Arc<SimBroadcaster>,
+	Arc<SimFee>,
+>;
+
+type AChainMonitor = ChainMonitor<
+	SimSigner,
+	Arc<SimFilter>,
+	Arc<SimBroadcaster>,
+	Arc<SimFee>,
+	Arc<SimLogger>,
+	AsyncPersister<
+		Arc<AsyncKv>,
+		ParkSpawner,
+		Arc<SimLogger>,
+		Arc<MirrorKeys>,
+		Arc<MirrorKeys>,
+		Arc<SimBroadcaster>,
+		Arc<SimFee>,
+	>,
+	Arc<MirrorKeys>,
+>;
+
+struct AHanded {
+	id: u64,
+	blob: Val,
+	update: Option<Val>,
+	mon: Arc<Mon>,
+	epoch: u64,
+}
+
+#[derive(Default)]
+struct AChan {
+	key: String,
+	chan_id: [u8; 32],
+	acked: Option<u64>,
+	handed: Vec<AHanded>,
+	update_by_id: BTreeMap<u64, usize>,
+	/// harness call -> handed index (the monitor as it was when that call issued its writes)
+	by_call: BTreeMap<usize, usize>,
+	verified: BTreeMap<u64, u64>,
+}
+
+pub struct AsyncMirror {
+	pub node: usize,
+	pub kv: Arc<AsyncKv>,
+	pub spawner: ParkSpawner,
+	pub keys: Arc<MirrorKeys>,
+	pub logger: Arc<SimLogger>,
+	pub broadcaster: Arc<SimBroadcaster>,
+	pub fee: Arc<SimFee>,
+	cm: Option<Arc<AChainMonitor>>,
+	/// a second persister over the same store, for `cleanup_stale_updates`
+	aux: APersister,
+	pub max_pending: u64,
+	pub dead: bool,
+	chans: BTreeMap<String, AChan>,
+	chan_keys: BTreeMap<[u8; 32], String>,
+	calls: usize,
+	ops_seen: usize,
+	pub global_fifo: bool,
+	pub coin_seed: u64,
+	pub list_salt: u64,
+	pub epoch: u64,
+	pub height: u32,
+	pub crash_states: u64,
+}
+
+struct ACtx<'a> {
+	out: &'a mut RunOutcome,
+	step: u64,
+	hist: &'a mut u64,
+}
+
+impl<'a> ACtx<'a> {
+	fn note(&mut self, s: &str) {
+		*self.hist = fnv_extend(*self.hist, s.as_bytes());
+		if std::env::var("VERIF_TRACE").is_ok() {
+			eprintln!("[{}] apersist: {}", self.step, s);
+		}
+	}
+	fn violate(&mut self, oracle: &str, msg: String) {
+		if std::env::var("VERIF_TRACE").is_ok() {
+			eprintln!("[{}] VIOLATION C19 {}: {}", self.step, oracle, msg);
+		}
+		let step = self.step;
+		self.out.violate("C19", oracle, step, msg);
+	}
+}
+
+fn new_apersister(
+	kv: &Arc<AsyncKv>, spawner: &ParkSpawner, logger: &Arc<SimLogger>, keys: &Arc<MirrorKeys>,
+	bc: &Arc<SimBroadcaster>, fee: &Arc<SimFee>, max_pending: u64,
+) -> APersister {
+	MonitorUpdatingPersisterAsync::new(
+		Arc::clone(kv),
+		spawner.clone(),
+		Arc::clone(logger),
+		max_pending,
+		Arc::clone(keys),
+		Arc::clone(keys),
+		Arc::clone(bc),
+		Arc::clone(fee),
+	)
+}
+
+impl AsyncMirror {
+	#[allow(clippy::too_many_arguments)]
+	fn new(
+		node: usize, node_keys: Arc<SimKeys>, fee: Arc<SimFee>, max_pending: u64, lazy_mode: u8,
+		coin_seed: u64, list_salt: u64, global_fifo: bool,
+	) -> AsyncMirror {
+		let kv = Arc::new(AsyncKv::new(lazy_mode, list_salt));
+		let spawner = ParkSpawner::new();
+		let peer_key = node_keys.get_peer_storage_key();
+		let keys = Arc::new(MirrorKeys::new(node_keys));
+		let logger = Arc::new(SimLogger::new(200 + node));
+		let broadcaster = Arc::new(SimBroadcaster::new());
+		let persister = new_apersister(&kv, &spawner, &logger, &keys, &broadcaster, &fee, max_pending);
+		let aux = new_apersister(&kv, &spawner, &logger, &keys, &broadcaster, &fee, max_pending);
+		let cm: AChainMonitor = ChainMonitor::new_async_beta(
+			Some(Arc::new(SimFilter::new())),
+			Arc::clone(&broadcaster),
+			Arc::clone(&logger),
+			Arc::clone(&fee),
+			persister,
+			Arc::clone(&keys),
+			peer_key,
+			false,
+		);
+		AsyncMirror {
+			node,
+			kv,
+			spawner,
+			keys,
+			logger,
+			broadcaster,
+			fee,
+			cm: Some(Arc::new(cm)),
+			aux,
+			max_pending,
+			dead: false,
+			chans: BTreeMap::new(),
+			chan_keys: BTreeMap::new(),
+			calls: 0,
+			ops_seen: 0,
+			global_fifo,
+			coin_seed,
+			list_salt,
+			epoch: 0,
+			height: 0,
+			crash_states: 0,
+		}
+	}
+
+	fn begin_call(&mut self) -> usize {
+		self.calls += 1;
+		*self.kv.cur_call.lock().unwrap() = self.calls;
+		self.calls
+	}
+
+	/// After a harness call that may have made the `ChainMonitor` hand monitors to the persister:
+	/// remember, for every channel for which a write was issued, the in-memory monitor of that
+	/// moment.
+	fn record_handed(&mut self, ctx: &mut ACtx, call: usize, update: Option<(&str, u64, Val)>) {
+		let issued: Vec<(String, String, String)> = {
+			let parked = self.kv.parked.lock().unwrap();
+			parked
+				.iter()
+				.filter(|o| o.call == call && o.kind == OpKind::Write)
+				.map(|o| (o.p.clone(), o.s.clone(), o.k.clone()))
+				.collect()
+		};
+		let mut touched: BTreeSet<String> = BTreeSet::new();
+		for (p, s, k) in issued {
+			if p == CHANNEL_MONITOR_PERSISTENCE_PRIMARY_NAMESPACE {
+				touched.insert(k);
+			} else if p == CHANNEL_MONITOR_UPDATE_PERSISTENCE_PRIMARY_NAMESPACE {
+				touched.insert(s);
+			}
+		}
+		if let Some((k, _, _)) = update.as_ref() {
+			touched.insert(k.to_string());
+		}
+		let cm = match self.cm.as_ref() {
+			Some(c) => Arc::clone(c),
+			None => return,
+		};
+		for key in touched {
+			let chan_id = match self.chans.get(&key) {
+				Some(c) => c.chan_id,
+				None => continue,
+			};
+			let blob = match cm.get_monitor(ChannelId(chan_id)) {
+				Ok(m) => m.encode(),
+				Err(()) => continue,
+			};
+			let mon = match read_monitor(&self.keys, &blob) {
+				Ok(m) => m,
+				Err(e) => {
+					ctx.out.harness_errors.push(format!("async mirror monitor does not round-trip: {}", e));
+					self.dead = true;
+					return;
+				},
+			};
+			let id = mon.get_latest_update_id();
+			let ch = self.chans.get_mut(&key).unwrap();
+			let hidx = ch.handed.len();
+			let upd = match update.as_ref() {
+				Some((k, uid, bytes)) if *k == key && *uid == id => Some(Arc::clone(bytes)),
+				_ => None,
+			};
+			if upd.is_some() {
+				ch.update_by_id.insert(id, hidx);
+			}
+			ch.handed.push(AHanded { id, blob: Arc::new(blob), update: upd, mon: Arc::new(mon), epoch: self.epoch });
+			ch.by_call.insert(call, hidx);
+		}
+	}
+
+	fn register(&mut self, ctx: &mut ACtx, chan_id: [u8; 32], blob: Vec<u8>) {
+		let mon = match read_monitor(&self.keys, &blob) {
+			Ok(m) => m,
+			Err(e) => {
+				ctx.out.harness_errors.push(format!("initial monitor does not deserialise: {}", e));
+				self.dead = true;
+				return;
+			},
+		};
+		let key = format!("{}", mon.persistence_key());
+		self.height = self.height.max(mon.current_best_block().height);
+		self.chan_keys.insert(chan_id, key.clone());
+		let ch = self.chans.entry(key.clone()).or_default();
+		ch.key = key.clone();
+		ch.chan_id = chan_id;
+		let call = self.begin_call();
+		let cm = Arc::clone(self.cm.as_ref().unwrap());
+		let res = catch(|| cm.watch_channel(ChannelId(chan_id), mon));
+		match res {
+			Ok(Ok(st)) => {
+				if st != ChannelMonitorUpdateStatus::InProgress {
+					ctx.out.bump("probe:async_watch_not_in_progress");
+				}
+			},
+			Ok(Err(())) => {
+				ctx.out.harness_errors.push("watch_channel refused the monitor".into());
+				self.dead = true;
+				return;
+			},
+			Err((m, l)) => {
+				ctx.violate("C19-0 panic", format!("watch_channel panicked: {} at {}", m, l));
+				self.dead = true;
+				return;
+			},
+		}
+		ctx.note(&format!("n{} watch {}", self.node, &key[..8]));
+		ctx.out.bump("call:watch_channel");
+		self.record_handed(ctx, call, None);
+	}
+
+	fn feed_update(&mut self, ctx: &mut ACtx, chan_id: [u8; 32], bytes: Vec<u8>) {
+		if self.dead {
+			return;
+		}
+		let key = match self.chan_keys.get(&chan_id) {
+			Some(k) => k.clone(),
+			None => return,
+		};
+		let upd = match ChannelMonitorUpdate::read(&mut &bytes[..]) {
+			Ok(u) => u,
+			Err(e) => {
+				ctx.out.harness_errors.push(format!("captured update does not deserialise: {:?}", e));
+				self.dead = true;
+				return;
+			},
+		};
+		for s in upd.verif_steps() {
+			ctx.out.bump(&format!("update_step:{}", s.0));
+		}
+		let call = self.begin_call();
+		let cm = Arc::clone(self.cm.as_ref().unwrap());
+		let res = catch(|| cm.update_channel(ChannelId(chan_id), &upd));
+		match res {
+			Ok(st) => {
+				ctx.note(&format!("n{} update {} id {} -> {:?}", self.node, &key[..8], upd.update_id, st));
+			},
+			Err((m, l)) => {
+				ctx.violate("C19-0 panic", format!("update_channel panicked: {} at {}", m, l));
+				self.dead = true;
+				return;
+			},
+		}
+		ctx.out.bump("call:update_channel");
+		self.broadcaster.take();
+		self.record_handed(ctx, call, Some((&key, upd.update_id, Arc::new(bytes))));
+	}
+
+	fn feed_blocks(&mut self, ctx: &mut ACtx, chain: &lnsim::chain::ChainModel, upto: u32) {
+		if self.dead || upto <= self.height {
+			return;
+		}
+		let cm = Arc::clone(self.cm.as_ref().unwrap());
+		self.epoch += 1;
+		for h in (self.height + 1)..=upto {
+			let b = chain.block_at(h);
+			let txdata: Vec<(usize, &Transaction)> = b.txs.iter().enumerate().map(|(i, t)| (i + 1, t)).collect();
+			if !txdata.is_empty() {
+				let call = self.begin_call();
+				if let Err((m, l)) = catch(|| cm.transactions_confirmed(&b.header, &txdata, h)) {
+					ctx.violate("C19-0 panic", format!("transactions_confirmed panicked: {} at {}", m, l));
+					self.dead = true;
+					return;
+				}
+				self.record_handed(ctx, call, None);
+			}
+			let call = self.begin_call();
+			if let Err((m, l)) = catch(|| cm.best_block_updated(&b.header, h)) {
+				ctx.violate("C19-0 panic", format!("best_block_updated panicked: {} at {}", m, l));
+				self.dead = true;
+				return;
+			}
+			self.record_handed(ctx, call, None);
+			ctx.out.bump("call:block_to_async_chain_monitor");
+		}
+		self.broadcaster.take();
+		self.height = upto;
+		self.epoch += 1;
+	}
+
+	/// Polls parked futures until nothing moves, collects acknowledgements, then checks the crash
+	/// states produced by the store operations that took effect.
+	fn settle_tasks(&mut self, ctx: &mut ACtx) {
+		for _ in 0..64 {
+			let before = self.kv.parked.lock().unwrap().len();
+			let done = match catch(|| self.spawner.poll_all()) {
+				Ok(d) => d,
+				Err((m, l)) => {
+					ctx.violate("C19-0 panic", format!("a persister future panicked: {} at {}", m, l));
+					self.dead = true;
+					return;
+				},
+			};
+			let after = self.kv.parked.lock().unwrap().len();
+			if done == 0 && before == after {
+				break;
+			}
+		}
+		// op-level oracles over what took effect
+		self.scan_ops(ctx);
+		// crash states *before* the acknowledgements of this round are taken into account
+		let snaps = self.kv.store.take_snaps();
+		for (opi, snap) in snaps.iter() {
+			self.check_snapshot(ctx, snap, *opi);
+		}
+		if let Some(cm) = self.cm.as_ref() {
+			let evs = cm.release_pending_monitor_events();
+			for (_, chan, events, _) in evs {
+				for e in events {
+					if let MonitorEvent::Completed { monitor_update_id, .. } = e {
+						if let Some(key) = self.chan_keys.get(&chan.0) {
+							let ch = self.chans.get_mut(key).unwrap();
+							if ch.acked.map_or(true, |a| a < monitor_update_id) {
+								ch.acked = Some(monitor_update_id);
+							}
+							ctx.out.bump("probe:async_completion_reported");
+							ctx.note(&format!("n{} completed {} id {}", self.node, &key[..8], monitor_update_id));
+						}
+					}
+				}
+			}
+		}
+		// ... and with them (C09-2 for this persister: completion only after the write resolved)
+		let snap = self.kv.store.current();
+		let opi = self.kv.store.op_count();
+		self.check_snapshot(ctx, &snap, opi);
+	}
+
+	fn scan_ops(&mut self, ctx: &mut ACtx) {
+		let ops: Vec<crate::kv::Op> = {
+			let g = self.kv.store.inner.lock().unwrap();
+			g.ops[self.ops_seen..].to_vec()
+		};
+		let first = self.ops_seen;
+		self.ops_seen += ops.len();
+		let bad: Vec<String> = std::mem::take(&mut self.kv.store.inner.lock().unwrap().bad_keys);
+		for b in bad {
+			ctx.violate("C19-8 invalid store key", format!("node {}: {}", self.node, b));
+		}
+		for (i, op) in ops.iter().enumerate() {
+			*ctx.hist = fnv_extend(*ctx.hist, op.kind.name().as_bytes());
+			*ctx.hist = fnv_extend(*ctx.hist, join(&op.primary, &op.secondary, &op.key).as_bytes());
+			ctx.out.bump(&format!("storeop:{}", op.kind.name()));
+			if op.err {
+				ctx.out.bump(&format!("fault:store_error_{}", op.kind.name()));
+				if op.kind == OpKind::Write {
+					// "The node will now likely stall ... You should restart as soon as possible."
+					ctx.out.bump("fault:store_error_fatal_to_node");
+					self.dead = true;
+				}
+			}
+			if let OpKind::Remove { lazy } = op.kind {
+				if op.primary == CHANNEL_MONITOR_UPDATE_PERSISTENCE_PRIMARY_NAMESPACE {
+					ctx.out.bump("oracle:C19-5 cleanup below stored monitor");
+					let uid: Option<u64> = op.key.parse().ok();
+					// the stored monitor at the moment the removal took effect
+					let stored = self.stored_id_before(first + i, &op.secondary);
+					match (uid, stored) {
+						(Some(u), Some(s)) if u <= s => {
+							if op.existed {
+								ctx.out.bump("probe:stale_update_removed");
+							}
+						},
+						_ => ctx.violate(
+							"C19-5 cleanup removes an update the stored monitor does not contain",
+							format!(
+								"node {} op {}: remove(lazy={}) of update {} of {} while the stored monitor is at {:?} (key existed: {})",
+								self.node, first + i, lazy, op.key, &op.secondary[..8.min(op.secondary.len())], stored, op.existed
+							),
+						),
+					}
+				}
+			}
+		}
+	}
+
+	/// Update id of the full monitor of `key` that was in the store before op `opi` took effect.
+	fn stored_id_before(&self, opi: usize, key: &str) -> Option<u64> {
+		let g = self.kv.store.inner.lock().unwrap();
+		let oc = self.kv.op_call.lock().unwrap();
+		let ch = self.chans.get(key)?;
+		for o in (0..opi).rev() {
+			let op = &g.ops[o];
+			if op.kind == OpKind::Write
+				&& op.applied && op.primary == CHANNEL_MONITOR_PERSISTENCE_PRIMARY_NAMESPACE
+				&& op.key == key
+			{
+				let call = oc.get(&o)?;
+				let h = ch.by_call.get(call)?;
+				return Some(ch.handed[*h].id);
+			}
+		}
+		None
+	}
+
+	fn coin(&self, variant: u64, opi: usize, key: &str) -> bool {
+		let mut h = fnv(&self.coin_seed.to_le_bytes());
+		h = fnv_extend(h, &variant.to_le_bytes());
+		h = fnv_extend(h, &(opi as u64).to_le_bytes());
+		h = fnv_extend(h, key.as_bytes());
+		(h >> 17) & 1 == 1
+	}
+
+	fn check_snapshot(&mut self, ctx: &mut ACtx, snap: &Snapshot, opi: usize) {
+		let st = snap.crash_state(&|_| false);
+		self.check_state(ctx, &st, opi, "all lazy removals effective");
+		if snap.lazy_pending.is_empty() {
+			return;
+		}
+		ctx.out.bump("fault:crash_with_lazy_removals_pending");
+		let st = snap.crash_state(&|_| true);
+		self.check_state(ctx, &st, opi, "no pending lazy removal effective");
+		if snap.lazy_pending.len() >= 2 {
+			let st = snap.crash_state(&|k| self.coin(0, opi, k));
+			self.check_state(ctx, &st, opi, "some lazy removals lost");
+		}
+	}
+
+	fn chan_sub(
+		state: &BTreeMap<String, (Val, usize)>, key: &str,
+	) -> (u64, Option<usize>, Vec<(u64, usize)>) {
+		let mk = join(CHANNEL_MONITOR_PERSISTENCE_PRIMARY_NAMESPACE, "", key);
+		let base = state.get(&mk).map(|(_, o)| *o);
+		let prefix = format!("{}/{}/", CHANNEL_MONITOR_UPDATE_PERSISTENCE_PRIMARY_NAMESPACE, key);
+		let mut ups: Vec<(u64, usize)> = Vec::new();
+		for (k, (_, o)) in state.range(prefix.clone()..) {
+			if !k.starts_with(&prefix) {
+				break;
+			}
+			if let Ok(id) = k[prefix.len()..].parse::<u64>() {
+				ups.push((id, *o));
+			}
+		}
+		ups.sort();
+		let mut h = fnv(key.as_bytes());
+		h = fnv_extend(h, &(base.map_or(u64::MAX, |b| b as u64)).to_le_bytes());
+		for (id, o) in ups.iter() {
+			h = fnv_extend(h, &id.to_le_bytes());
+			h = fnv_extend(h, &(*o as u64).to_le_bytes());
+		}
+		(h, base, ups)
+	}
+
+	fn check_state(&mut self, ctx: &mut ACtx, state: &BTreeMap<String, (Val, usize)>, opi: usize, what: &str) {
+		self.crash_states += 1;
+		ctx.out.bump("fault:crash_point");
+		let keys: Vec<String> = self.chans.keys().cloned().collect();
+		let mut todo = Vec::new();
+		for key in keys.iter() {
+			let (fp, base, ups) = Self::chan_sub(state, key);
+			let ch = &self.chans[key];
+			if ch.acked.is_none() && base.is_none() {
+				continue;
+			}
+			match ch.verified.get(&fp) {
+				Some(rid) => {
+					ctx.out.bump("oracle:C19-2 acknowledged updates survive");
+					if let Some(a) = ch.acked {
+						if *rid < a {
+							ctx.violate(
+								"C19-2 acknowledged update lost",
+								format!(
+									"node {} crash before op {} ({}): {} recovers at update id {} but completion of {} was reported",
+									self.node, opi, what, &key[..8], rid, a
+								),
+							);
+						}
+					}
+				},
+				None => todo.push((key.clone(), fp, base, ups)),
+			}
+		}
+		if todo.is_empty() {
+			ctx.out.bump("probe:crash_state_already_verified");
+			return;
+		}
+		ctx.out.bump("probe:crash_state_recovered");
+		*ctx.hist = fnv_extend(*ctx.hist, &(opi as u64).to_le_bytes());
+		let kv = Arc::new(AsyncKv::recovering(state, self.list_salt ^ opi as u64));
+		let bc = Arc::new(SimBroadcaster::new());
+		let sp = ParkSpawner::new();
+		let p = new_apersister(&kv, &sp, &self.logger, &self.keys, &bc, &self.fee, self.max_pending);
+		ctx.out.bump("oracle:C19-1 recovery succeeds (read_all)");
+		let mut recovered: BTreeMap<String, Mon> = BTreeMap::new();
+		match catch(|| block_on_ready(p.read_all_channel_monitors_with_updates())) {
+			Ok(Some(Ok(v))) => {
+				for (_, m) in v {
+					recovered.insert(format!("{}", m.persistence_key()), m);
+				}
+			},
+			Ok(Some(Err(e))) => {
+				ctx.violate(
+					"C19-1 recovery fails",
+					format!(
+						"node {} crash before op {} ({}): read_all_channel_monitors_with_updates returned {}; store: {}",
+						self.node, opi, what, e, Self::render(state)
+					),
+				);
+				return;
+			},
+			Ok(None) => {
+				ctx.out.harness_errors.push("recovery future did not complete on an immediate store".into());
+				return;
+			},
+			Err((m, l)) => {
+				ctx.violate(
+					"C19-1 recovery fails",
+					format!(
+						"node {} crash before op {} ({}): read_all_channel_monitors_with_updates panicked: {} at {}; store: {}",
+						self.node, opi, what, m, l, Self::render(state)
+					),
+				);
+				return;
+			},
+		}
+		for (key, fp, base, ups) in todo {
+			let rec = recovered.remove(&key);
+			self.judge(ctx, opi, what, &key, fp, base, &ups, rec);
+		}
+	}
+
+	fn render(state: &BTreeMap<String, (Val, usize)>) -> String {
+		let mut per: BTreeMap<String, Vec<String>> = BTreeMap::new();
+		for k in state.keys() {
+			let parts: Vec<&str> = k.splitn(3, '/').collect();
+			if parts.len() == 3 {
+				if parts[0] == CHANNEL_MONITOR_PERSISTENCE_PRIMARY_NAMESPACE {
+					per.entry(parts[2][..8.min(parts[2].len())].to_string()).or_default().push("monitor".into());
+				} else if parts[0] == CHANNEL_MONITOR_UPDATE_PERSISTENCE_PRIMARY_NAMESPACE {
+					per.entry(parts[1][..8.min(parts[1].len())].to_string()).or_default().push(format!("u{}", parts[2]));
+				}
+			}
+		}
+		format!("{:?}", per)
+	}
+
+	#[allow(clippy::too_many_arguments)]
+	fn judge(
+		&mut self, ctx: &mut ACtx, opi: usize, what: &str, key: &str, fp: u64, base: Option<usize>,
+		ups: &[(u64, usize)], rec: Option<Mon>,
+	) {
+		let where_ = format!("node {} crash before op {} ({}), channel {}", self.node, opi, what, &key[..8]);
+		let acked = self.chans[key].acked;
+		let r = match rec {
+			Some(r) => r,
+			None => {
+				if acked.is_some() {
+					ctx.violate(
+						"C19-2 acknowledged monitor missing",
+						format!("{}: no monitor recovered although completion of {:?} was reported", where_, acked),
+					);
+				}
+				return;
+			},
+		};
+		let rid = r.get_latest_update_id();
+		*ctx.hist = fnv_extend(*ctx.hist, &rid.to_le_bytes());
+		ctx.out.bump("oracle:C19-2 acknowledged updates survive");
+		if let Some(a) = acked {
+			if rid < a {
+				ctx.violate(
+					"C19-2 acknowledged update lost",
+					format!("{}: recovered at update id {} but completion of {} was reported", where_, rid, a),
+				);
+				return;
+			}
+		}
+		let b = match base {
+			Some(b) => b,
+			None => return,
+		};
+		let call_of = |o: usize| -> Option<usize> { self.kv.op_call.lock().unwrap().get(&o).copied() };
+		let ch = &self.chans[key];
+		let bh = match call_of(b).and_then(|c| ch.by_call.get(&c).copied()) {
+			Some(h) => h,
+			None => {
+				ctx.out.bump("probe:base_without_handed_monitor");
+				return;
+			},
+		};
+		let base_id = ch.handed[bh].id;
+		let applied: Vec<u64> = ups.iter().map(|(id, _)| *id).filter(|id| *id > base_id).collect();
+		if !applied.is_empty() {
+			ctx.out.bump("probe:recovered_by_applying_updates");
+		}
+		if applied.len() >= 3 {
+			ctx.out.bump("probe:recovered_by_applying_3plus_updates");
+		}
+		ctx.out.bump("oracle:C19-3 recovered equals in-memory monitor");
+		let mut ok = true;
+		if applied.is_empty() {
+			if !r.verif_eq(&ch.handed[bh].mon) {
+				ok = false;
+				ctx.violate(
+					"C19-3 recovered monitor differs from the stored in-memory monitor",
+					format!("{}: no updates applied, id {}", where_, rid),
+				);
+			}
+		} else {
+			// reference recovery: stored monitor + the updates handed to update_channel
+			ctx.out.bump("oracle:C19-3 recovered equals reference recovery");
+			let refm = (|| -> Result<Mon, String> {
+				let m = read_monitor(&self.keys, &ch.handed[bh].blob)?;
+				let bc = SimBroadcaster::new();
+				for id in (base_id + 1)..=rid {
+					let h = ch.update_by_id.get(&id).ok_or_else(|| format!("update {} was never handed over", id))?;
+					let bytes = ch.handed[*h].update.as_ref().unwrap();
+					let u = ChannelMonitorUpdate::read(&mut &bytes[..]).map_err(|e| format!("{:?}", e))?;
+					match catch(|| m.update_monitor(&u, &bc, &self.fee, &self.logger)) {
+						Ok(Ok(())) => {},
+						Ok(Err(())) => return Err(format!("update_monitor({}) failed", id)),
+						Err((msg, loc)) => return Err(format!("update_monitor({}) panicked: {} at {}", id, msg, loc)),
+					}
+				}
+				Ok(m)
+			})();
+			match refm {
+				Ok(refm) => {
+					if !r.verif_eq(&refm) {
+						ok = false;
+						ctx.violate(
+							"C19-3 recovered monitor differs from base monitor + handed updates",
+							format!("{}: base id {}, recovered id {}", where_, base_id, rid),
+						);
+					}
+				},
+				Err(e) => {
+					ok = false;
+					ctx.violate(
+						"C19-3 reference recovery impossible",
+						format!("{}: base id {}, recovered id {}: {}", where_, base_id, rid, e),
+					);
+				},
+			}
+			// the in-memory monitor right after update `rid`, when no block arrived in between
+			if let Some(uh) = ch.update_by_id.get(&rid) {
+				let (be, me) = (ch.handed[bh].epoch, ch.handed[*uh].epoch);
+				if ok && be == me && be % 2 == 0 {
+					let mem = &ch.handed[*uh].mon;
+					let mut eq = r.verif_eq(mem);
+					if !eq {
+						// pending events handed out in memory but still held by the stored monitor
+						if let (Ok(a), Ok(b)) =
+							(read_monitor(&self.keys, &r.encode()), read_monitor(&self.keys, &ch.handed[*uh].blob))
+						{
+							let ea = drain_events(&a, &self.logger);
+							let eb = drain_events(&b, &self.logger);
+							eq = a.verif_eq(&b) && eb.iter().all(|e| ea.contains(e));
+						}
+					}
+					if !eq {
+						ok = false;
+						ctx.violate(
+							"C19-3 recovered monitor differs from the in-memory monitor of its update",
+							format!("{}: base id {}, recovered id {}", where_, base_id, rid),
+						);
+					}
+				} else if ok {
+					ctx.out.bump("probe:in_memory_compare_skipped_chain_data_between");
+				}
+			}
+		}
+		if ok {
+			self.chans.get_mut(key).unwrap().verified.insert(fp, rid);
+		}
+	}
+
+	// ---- scheduler-facing
+
+	fn act_resolve(&mut self, ctx: &mut ACtx, pick: u32) -> bool {
+		if self.dead {
+			return false;
+		}
+		let el = self.kv.eligible(self.global_fifo);
+		if el.is_empty() {
+			return false;
+		}
+		let idx = el[pick as usize % el.len()];
+		if idx != el[0] {
+			ctx.out.bump("fault:store_op_resolved_out_of_issue_order");
+		}
+		if let Some(kind) = self.kv.resolve(idx) {
+			ctx.note(&format!("n{} resolve {}", self.node, kind.name()));
+		}
+		self.settle_tasks(ctx);
+		true
+	}
+
+	fn act_resolve_all(&mut self, ctx: &mut ACtx) -> bool {
+		if self.dead {
+			return false;
+		}
+		let mut any = false;
+		for _ in 0..10_000 {
+			let el = self.kv.eligible(true);
+			if el.is_empty() || self.dead {
+				break;
+			}
+			self.kv.resolve(el[0]);
+			self.settle_tasks(ctx);
+			any = true;
+		}
+		any
+	}
+
+	fn act_cleanup(&mut self, ctx: &mut ACtx, lazy: bool) -> bool {
+		if self.dead {
+			return false;
+		}
+		self.begin_call();
+		// `cleanup_stale_updates` borrows the persister: run it as a parked task over a persister of
+		// its own on the same store
+		let p = new_apersister(
+			&self.kv,
+			&self.spawner,
+			&self.logger,
+			&self.keys,
+			&self.broadcaster,
+			&self.fee,
+			self.max_pending,
+		);
+		let _ = &self.aux;
+		self.spawner.tasks.lock().unwrap().push(Box::pin(async move {
+			let _ = p.cleanup_stale_updates(lazy).await;
+		}));
+		ctx.note(&format!("n{} spawn cleanup lazy={}", self.node, lazy));
+		self.settle_tasks(ctx);
+		true
+	}
+}
+
+// ---------------------------------------------------------------------------------------------
+// configuration, actions, driver
+
+#[derive(Clone, Debug, Serialize, Deserialize)]
+pub struct AConfig {
+	pub world: lnsim::world::Config,
+	pub mirrors: Vec<crate::MirrorSpec>,
+	pub lazy_mode: u8,
+	pub coin_seed: u64,
+	pub list_salt: u64,
+	pub steps: u64,
+	pub global_fifo: bool,
+	pub w_world: u32,
+	pub w_chain: u32,
+	pub w_resolve: u32,
+	pub w_cleanup: u32,
+	pub w_flush: u32,
+	pub w_err: u32,
+	pub resolve_all_pct: u8,
+	pub close_after: u64,
+	pub w_close_coop: u32,
+	pub w_force_close: u32,
+}
+
+#[derive(Clone, Debug, Serialize, Deserialize, PartialEq)]
+pub enum AAction {
+	W(WAction),
+	Resolve { node: usize, pick: u32 },
+	ResolveAll { node: usize },
+	Cleanup { node: usize, lazy: bool },
+	Flush { node: usize },
+	ArmErr { node: usize, after: u32, applied: bool },
+}
+
+impl AAction {
+	fn kind(&self) -> String {
+		match self {
+			AAction::W(a) => format!("W{}", a.kind()),
+			AAction::Resolve { .. } => "Resolve".into(),
+			AAction::ResolveAll { .. } => "ResolveAll".into(),
+			AAction::Cleanup { .. } => "Cleanup".into(),
+			AAction::Flush { .. } => "Flush".into(),
+			AAction::ArmErr { .. } => "ArmErr".into(),
+		}
+	}
+	fn actor(&self) -> usize {
+		match self {
+			AAction::W(a) => a.actor(),
+			AAction::Resolve { node, .. }
+			| AAction::ResolveAll { node }
+			| AAction::Cleanup { node, .. }
+			| AAction::Flush { node }
+			| AAction::ArmErr { node, .. } => *node,
+		}
+	}
+}
+
+struct ARun {
+	cfg: AConfig,
+	wd: World,
+	mirrors: Vec<AsyncMirror>,
+	watch_cursor: Vec<usize>,
+	out: RunOutcome,
+	hist: u64,
+	inter: u64,
+	trace: Vec<AAction>,
+	step: u64,
+	state_fps: BTreeSet<u64>,
+	sample: Vec<String>,
+}
+
+fn gen_aconfig(rng: &mut Rng, tier: Tier, global_fifo: bool) -> AConfig {
+	let base = crate::gen_config(rng, tier);
+	let mut r = rng.fork("async-config");
+	AConfig {
+		world: base.world,
+		mirrors: base.mirrors,
+		lazy_mode: base.lazy_mode,
+		coin_seed: base.coin_seed,
+		list_salt: base.list_salt,
+		steps: base.steps,
+		global_fifo,
+		w_world: 100,
+		w_chain: base.w_chain,
+		w_resolve: *r.pick(&[20, 50, 100]),
+		w_cleanup: *r.pick(&[0, 1, 3]),
+		w_flush: *r.pick(&[0, 1, 3]),
+		w_err: *r.pick(&[0, 0, 0, 1]),
+		resolve_all_pct: *r.pick(&[0, 10, 40]),
+		close_after: base.close_after,
+		w_close_coop: base.w_close_coop,
+		w_force_close: base.w_force_close,
+	}
+}
+
+impl ARun {
+	fn new(cfg: AConfig, seed: u64) -> ARun {
+		let wd = World::new(cfg.world.clone());
+		let mut out = RunOutcome::new("async", seed);
+		out.seed = seed;
+		ARun {
+			cfg,
+			wd,
+			mirrors: Vec::new(),
+			watch_cursor: Vec::new(),
+			out,
+			hist: fnv(b"persistsim-async"),
+			inter: fnv(b"inter"),
+			trace: Vec::new(),
+			step: 0,
+			state_fps: BTreeSet::new(),
+			sample: Vec::new(),
+		}
+	}
+
+	fn setup(&mut self) {
+		self.wd.setup();
+		if self.wd.dead {
+			self.out.bump("other:world_setup_failed");
+			return;
+		}
+		for spec in self.cfg.mirrors.clone() {
+			if spec.node >= self.wd.nodes.len() {
+				continue;
+			}
+			let node = &self.wd.nodes[spec.node];
+			let mut m = AsyncMirror::new(
+				spec.node,
+				Arc::clone(&node.keys),
+				Arc::clone(&node.fee),
+				spec.max_pending,
+				self.cfg.lazy_mode,
+				self.cfg.coin_seed ^ spec.node as u64,
+				self.cfg.list_salt ^ (spec.node as u64) << 8,
+				self.cfg.global_fifo,
+			);
+			self.out.bump(&format!("cfg:max_pending_{}", spec.max_pending));
+			let mut cursor = 0;
+			if let Some(live) = node.live.as_ref() {
+				let mut ids = live.monitor.list_monitors();
+				ids.sort_by_key(|c| c.0);
+				let mut blobs = Vec::new();
+				for id in ids {
+					if let Ok(mon) = live.monitor.get_monitor(id) {
+						blobs.push((id.0, mon.encode()));
+					}
+				}
+				cursor = live.watch.log.lock().unwrap().len();
+				for (cid, blob) in blobs {
+					let mut ctx = ACtx { out: &mut self.out, step: 0, hist: &mut self.hist };
+					m.register(&mut ctx, cid, blob);
+				}
+				m.height = m.height.max(node.synced_height);
+				let mut ctx = ACtx { out: &mut self.out, step: 0, hist: &mut self.hist };
+				m.settle_tasks(&mut ctx);
+			}
+			self.mirrors.push(m);
+			self.watch_cursor.push(cursor);
+		}
+	}
+
+	fn scan(&mut self) {
+		for mi in 0..self.mirrors.len() {
+			let n = self.mirrors[mi].node;
+			let mut updates: Vec<([u8; 32], Vec<u8>)> = Vec::new();
+			if let Some(live) = self.wd.nodes[n].live.as_ref() {
+				let log = live.watch.log.lock().unwrap();
+				let cur = self.watch_cursor[mi].min(log.len());
+				for c in log[cur..].iter() {
+					if !c.new_channel {
+						updates.push((c.chan, c.update_bytes.clone()));
+					}
+				}
+				self.watch_cursor[mi] = log.len();
+			}
+			let upto = self.wd.nodes[n].synced_height;
+			let mut ctx = ACtx { out: &mut self.out, step: self.step, hist: &mut self.hist };
+			let m = &mut self.mirrors[mi];
+			m.feed_blocks(&mut ctx, &self.wd.chain, upto);
+			for (chan, bytes) in updates {
+				m.feed_update(&mut ctx, chan, bytes);
+			}
+			if !m.dead {
+				// issuing is synchronous; nothing takes effect until the scheduler says so
+				m.settle_tasks(&mut ctx);
+			}
+		}
+	}
+
+	fn apply(&mut self, a: &AAction) -> bool {
+		self.step += 1;
+		let did = match a {
+			AAction::W(wa) => {
+				if self.wd.dead {
+					false
+				} else {
+					let did = self.wd.apply(wa);
+					self.scan();
+					if self.wd.dead {
+						self.out.bump("other:world_died");
+					}
+					did
+				}
+			},
+			_ => {
+				let node = a.actor();
+				match self.mirrors.iter().position(|m| m.node == node) {
+					None => false,
+					Some(mi) => {
+						let mut ctx = ACtx { out: &mut self.out, step: self.step, hist: &mut self.hist };
+						let m = &mut self.mirrors[mi];
+						match a {
+							AAction::Resolve { pick, .. } => m.act_resolve(&mut ctx, *pick),
+							AAction::ResolveAll { .. } => m.act_resolve_all(&mut ctx),
+							AAction::Cleanup { lazy, .. } => m.act_cleanup(&mut ctx, *lazy),
+							AAction::Flush { .. } => {
+								if m.dead {
+									false
+								} else {
+									m.kv.store.flush_lazy() > 0
+								}
+							},
+							AAction::ArmErr { after, applied, .. } => {
+								if m.dead {
+									false
+								} else {
+									m.kv.store.arm_error(*after, *applied);
+									true
+								}
+							},
+							AAction::W(_) => unreachable!(),
+						}
+					},
+				}
+			},
+		};
+		if did {
+			self.out.bump(&format!("action:{}", a.kind()));
+			self.inter = fnv_extend(self.inter, a.kind().as_bytes());
+			self.inter = fnv_extend(self.inter, &[a.actor() as u8]);
+			if self.sample.len() < 30 {
+				self.sample.push(format!("{:?}", a));
+			}
+			self.trace.push(a.clone());
+			let mut h = fnv(b"astate");
+			for m in self.mirrors.iter() {
+				let parked = m.kv.parked.lock().unwrap().len();
+				h = fnv_extend(h, &[m.node as u8, m.dead as u8, parked.min(6) as u8, m.spawner.len().min(6) as u8]);
+				for c in m.chans.values() {
+					let lag = c.handed.last().map(|h| h.id).unwrap_or(0).saturating_sub(c.acked.unwrap_or(0));
+					h = fnv_extend(h, &[lag.min(5) as u8]);
+				}
+			}
+			if self.state_fps.len() < 4096 {
+				self.state_fps.insert(h);
+			}
+		}
+		did
+	}
+
+	fn finish(mut self, profile: &str) -> RunOutcome {
+		let foreign = self.wd.out.violations.len() as u64;
+		if foreign > 0 {
+			self.out.add("other:lnsim_oracle_tripped", foreign);
+		}
+		let mut crash_states = 0;
+		let mut store_ops = 0;
+		for m in self.mirrors.iter() {
+			crash_states += m.crash_states;
+			store_ops += m.kv.store.op_count() as u64;
+		}
+		self.out.add("other:store_ops", store_ops);
+		self.out.profile = profile.to_string();
+		self.out.steps = self.step;
+		self.out.sim_seconds = self.wd.clock.saturating_sub(1_700_000_000);
+		self.out.sim_blocks = self.wd.out.sim_blocks;
+		self.out.history_fp = fnv_extend(self.hist, &self.wd.hist.to_le_bytes());
+		self.out.interleaving_fp = self.inter;
+		self.out.state_fps = self.state_fps.iter().cloned().collect();
+		let c = |k: &str| self.out.counters.get(k).copied().unwrap_or(0);
+		self.out.nontrivial = c("probe:async_completion_reported") > 0 && crash_states > 10;
+		self.out.sample = Some(json!({
+			"profile": profile,
+			"mirrors": self.cfg.mirrors,
+			"global_fifo": self.cfg.global_fifo,
+			"store_ops": store_ops,
+			"crash_states": crash_states,
+			"first_actions": self.sample,
+		}));
+		if !self.out.violations.is_empty()
+			|| !self.out.harness_errors.is_empty()
+			|| std::env::var("PERSISTSIM_FORCE_REPLAY").is_ok()
+		{
+			self.out.replay = Some(json!({
+				"sim": "persistsim",
+				"profile": profile,
+				"config": serde_json::to_value(&self.cfg).unwrap(),
+				"trace": serde_json::to_value(&self.trace).unwrap(),
+			}));
+		}
+		self.out
+	}
+}
+
+fn adrive(run: &mut ARun, rng: &mut Rng) {
+	let mut sched = rng.fork("schedule");
+	let mut idle = 0;
+	while (run.trace.len() as u64) < run.cfg.steps && idle < 60 {
+		// the cross-key ordering finding (C19-1) does not stop the exploration of the other oracles
+		if run.mirrors.iter().all(|m| m.dead)
+			|| run.out.violations.iter().any(|v| v.oracle != "C19-1 recovery fails")
+		{
+			break;
+		}
+		let late = run.trace.len() as u64 >= run.cfg.close_after;
+		if late {
+			let (cc, fc) = (run.cfg.w_close_coop, run.cfg.w_force_close);
+			run.wd.cfg.weights.insert("CloseCoop".to_string(), cc);
+			run.wd.cfg.weights.insert("ForceClose".to_string(), fc);
+		}
+		let cfg = &run.cfg;
+		let alive: Vec<usize> = run.mirrors.iter().filter(|m| !m.dead).map(|m| m.node).collect();
+		let with_parked: Vec<usize> = run
+			.mirrors
+			.iter()
+			.filter(|m| !m.dead && !m.kv.parked.lock().unwrap().is_empty())
+			.map(|m| m.node)
+			.collect();
+		let ws = [
+			if run.wd.dead { 0 } else { cfg.w_world },
+			if run.wd.dead { 0 } else { cfg.w_chain },
+			if with_parked.is_empty() { 0 } else { cfg.w_resolve },
+			cfg.w_cleanup,
+			cfg.w_flush,
+			cfg.w_err,
+		];
+		if ws.iter().all(|w| *w == 0) {
+			break;
+		}
+		let a = match sched.weighted(&ws) {
+			0 => match lnsim::sched::next_action(&run.wd, &mut sched).map(AAction::W) {
+				Some(AAction::W(WAction::Send { .. })) if sched.chance(4, 5) => {
+					crate::gen_send(&run.wd, &mut sched).and_then(|a| match a {
+						crate::Action::W(w) => Some(AAction::W(w)),
+						_ => None,
+					})
+				},
+				other => other,
+			},
+			1 => crate::next_chain_action(&run.wd, &mut sched).and_then(|a| match a {
+				crate::Action::W(w) => Some(AAction::W(w)),
+				_ => None,
+			}),
+			2 => {
+				let node = *sched.pick(&with_parked);
+				if sched.below(100) < cfg.resolve_all_pct as u64 {
+					Some(AAction::ResolveAll { node })
+				} else {
+					Some(AAction::Resolve { node, pick: sched.below(8) as u32 })
+				}
+			},
+			3 => Some(AAction::Cleanup { node: *sched.pick(&alive), lazy: sched.coin() }),
+			4 => Some(AAction::Flush { node: *sched.pick(&alive) }),
+			_ => Some(AAction::ArmErr { node: *sched.pick(&alive), after: sched.below(12) as u32, applied: sched.coin() }),
+		};
+		let a = match a {
+			Some(a) => a,
+			None => {
+				idle += 1;
+				continue;
+			},
+		};
+		if run.apply(&a) {
+			idle = 0;
+		} else {
+			idle += 1;
+		}
+		if let AAction::W(_) = a {
+			// keep the world itself moving: its own (lnsim) persistence completes eagerly
+			if !run.wd.dead {
+				for (n, chan) in crate::pending_completions(&run.wd) {
+					run.apply(&AAction::W(WAction::CompleteMon { n, chan, which: 0 }));
+				}
+			}
+		}
+	}
+	// everything parked takes effect at the end
+	if run.out.violations.is_empty() {
+		let nodes: Vec<usize> = run.mirrors.iter().filter(|m| !m.dead).map(|m| m.node).collect();
+		for node in nodes {
+			run.apply(&AAction::ResolveAll { node });
+		}
+	}
+}
+
+pub fn run(profile: &str, seed: u64, tier: Tier) -> RunOutcome {
+	let mut rng = Rng::new(seed);
+	let cfg = gen_aconfig(&mut rng, tier, profile == "async-fifo");
+	let mut run = ARun::new(cfg, seed);
+	run.setup();
+	if !run.wd.dead {
+		adrive(&mut run, &mut rng);
+	}
+	run.finish(profile)
+}
+
+pub fn replay(replay: &Value) -> RunOutcome {
+	let profile = replay.get("profile").and_then(|p| p.as_str()).unwrap_or("async").to_string();
+	let cfg: AConfig = match serde_json::from_value(replay["config"].clone()) {
+		Ok(c) => c,
+		Err(e) => {
+			let mut o = RunOutcome::default();
+			o.harness_errors.push(format!("bad replay config: {}", e));
+			return o;
+		},
+	};
+	let trace: Vec<AAction> = match serde_json::from_value(replay["trace"].clone()) {
+		Ok(t) => t,
+		Err(e) => {
+			let mut o = RunOutcome::default();
+			o.harness_errors.push(format!("bad replay trace: {}", e));
+			return o;
+		},
+	};
+	let mut run = ARun::new(cfg, 0);
+	run.setup();
+	for a in trace.iter() {
+		run.apply(a);
+	}
+	run.finish(&profile)
 }
